@@ -4,15 +4,17 @@ import (
 	"fmt"
 	"sort"
 	"strings"
+	"time"
 
 	erpc "github.com/henrylee2cn/erpc/v6"
 	"github.com/henrylee2cn/erpc/v6/plugin/proxy"
 
+	"verif/shim/vnet"
 	"verif/shim/vsched"
 	"verif/world"
 )
 
-func init() { Sched["c19"] = c19; Sched["c19_seq"] = c19Seq }
+func init() { Sched["c19"] = c19; Sched["c19_seq"] = c19Seq; Sched["c19_redial"] = c19Redial }
 
 type c19backend struct {
 	peer        erpc.Peer
@@ -24,6 +26,7 @@ type c19backend struct {
 	status      *erpc.Status
 	closeDuring bool
 	breakLink   func()
+	hold        *world.Gate // if set, the call handler waits here before it answers
 }
 
 func metaOf(visit func(func(k, v []byte))) []string {
@@ -43,6 +46,9 @@ func newC19backend(codecName string) *c19backend {
 		ctx.SetMeta("rk", "rv")
 		ctx.AddMeta("dup", "1")
 		ctx.AddMeta("dup", "2")
+		if b.hold != nil {
+			b.hold.Wait()
+		}
 		if b.closeDuring && b.breakLink != nil {
 			b.breakLink() // the connection between proxy and backend is lost while the backend handles the call
 		}
@@ -267,5 +273,92 @@ func c19Seq(p Params) func() {
 			}
 		}
 		vsched.Logf("%s", hist)
+	}
+}
+
+// redialGate is a PostDial plugin of the proxy's forwarding peer that holds a redial open until the harness lets it go.
+type redialGate struct {
+	gate    *world.Gate
+	entered bool
+}
+
+func (r *redialGate) Name() string { return "redialgate" }
+func (r *redialGate) PostDial(s erpc.PreSession, isRedial bool) *erpc.Status {
+	if isRedial {
+		r.entered = true
+		r.gate.Wait()
+	}
+	return nil
+}
+
+// c19Redial: the proxy forwards over a redial-enabled session. The backend drops the idle connection; while the
+// forwarder is redialing, a proxied call (or push) arrives; the redial then completes. The backend is reachable
+// and the loss preceded the request, so the proxied result must equal the direct one (all schedules).
+func c19Redial(p Params) func() {
+	return func() {
+		begin()
+		push := vsched.Choose(2, "kind") == 1
+		const addr = "10.0.0.9:9000"
+		be := newC19backend("json")
+		lis := vnet.Listen(addr)
+		vsched.Spawn("acceptloop", func() { erpc.VerifServeListener(be.peer, lis) })
+		rg := &redialGate{gate: &world.Gate{}}
+		fwd := erpc.NewPeer(erpc.PeerConfig{DefaultBodyCodec: "json", RedialTimes: 1, RedialInterval: time.Millisecond}, rg)
+		toBackend, st := fwd.Dial(addr)
+		if !st.OK() {
+			vsched.Failf("dial backend: %v", st)
+		}
+		px := world.NewPeer("json", proxy.NewPlugin(func(*proxy.Label) proxy.Forwarder { return toBackend }))
+		cli := world.NewPeer("json")
+		cs, _, _ := world.Connect(cli, px, nil)
+		ref := newC19backend("json")
+		refCli := world.NewPeer("json")
+		rcs, _, _ := world.Connect(refCli, ref.peer, nil)
+		if got := doCall(cs, be.call, []byte("warm"), 's', nil); got.stat != "OK" && !strings.HasPrefix(got.stat, "(0|") {
+			vsched.Failf("warm-up proxied call failed: %s", got.stat)
+		}
+		// the backend drops the idle connection
+		for _, x := range vnet.Conns() {
+			if x.LocalAddr().String() == addr && !x.IsClosed() {
+				x.Close()
+			}
+		}
+		vsched.Quiesce()
+		if !rg.entered {
+			vsched.Failf("harness: the forwarder did not start to redial")
+		}
+		ran0 := be.ran
+		var got c19result
+		var pst *erpc.Status
+		caller := world.Go("caller", func() {
+			if push {
+				pst = cs.Push(be.push, []byte("during"), erpc.WithBodyCodec('s'))
+			} else {
+				got = doCall(cs, be.call, []byte("during"), 's', nil)
+			}
+		})
+		// the backend answers only after everything else has settled (the redial and whatever follows it)
+		be.hold = &world.Gate{}
+		vsched.Quiesce() // the request has reached the forwarder, which waits for the redial in progress
+		opener := world.Go("opener", func() { rg.gate.Open() })
+		vsched.Join(opener)
+		vsched.Quiesce()
+		be.hold.Open()
+		vsched.Join(caller)
+		vsched.Quiesce()
+		if push {
+			if !pst.OK() {
+				vsched.Failf("push to the proxy failed: %s", world.StatStr(pst))
+			}
+			if be.ran != ran0+1 || be.lastArg != "during" {
+				vsched.Failf("proxied push issued while the forwarder was redialing reached the backend %d times (arg %q), want once", be.ran-ran0, be.lastArg)
+			}
+		} else {
+			want := doCall(rcs, ref.call, []byte("during"), 's', nil)
+			if got.stat != want.stat || got.body != want.body || got.meta != want.meta {
+				vsched.Failf("proxied call issued while the forwarder was redialing returned %s %q meta %q, the direct call %s %q meta %q (backend handled it %d time(s))", got.stat, got.body, got.meta, want.stat, want.body, want.meta, be.ran-ran0)
+			}
+		}
+		vsched.Logf("push=%v ran=%d", push, be.ran-ran0)
 	}
 }
